@@ -308,16 +308,16 @@ func c12Parts() []c12Part {
 
 	return []c12Part{{
 		name: "hashprefix-ip", list: "hp", versions: []string{hp1, hp2},
-		hosts: []string{"danger.test", "fresh2.test"}, qtypes: []uint16{dns.TypeA, dns.TypeAAAA, dns.TypeHTTPS},
+		hosts: []string{"danger.test", "fresh2.test"}, qtypes: []uint16{dns.TypeA, dns.TypeAAAA, dns.TypeHTTPS, dns.TypeTXT},
 		newSubj: func() c12Subject { return c12NewHP("192.0.2.66") },
 	}, {
 		name: "hashprefix-host", list: "hp", versions: []string{hp1, hp2},
-		hosts: []string{"danger.test", "fresh2.test"}, qtypes: []uint16{dns.TypeA, dns.TypeHTTPS},
+		hosts: []string{"danger.test", "fresh2.test"}, qtypes: []uint16{dns.TypeA, dns.TypeHTTPS, dns.TypeMX},
 		newSubj: func() c12Subject { return c12NewHP("blocked.example") },
 	}, {
 		name: "safesearch", list: "ss",
 		versions: []string{"|engine.test^$dnsrewrite=NOERROR;A;192.0.2.77\n|video.test^$dnsrewrite=NOERROR;CNAME;safe.video.test\n", "|engine.test^$dnsrewrite=NOERROR;A;192.0.2.88\n"},
-		hosts:    []string{"engine.test", "video.test"}, qtypes: []uint16{dns.TypeA, dns.TypeAAAA, dns.TypeHTTPS},
+		hosts:    []string{"engine.test", "video.test"}, qtypes: []uint16{dns.TypeA, dns.TypeAAAA, dns.TypeHTTPS, dns.TypeTXT},
 		newSubj: c12NewSS,
 	}, {
 		name: "rulelist", list: "rl",
@@ -424,6 +424,11 @@ func TestVerifC12(t *testing.T) {
 	r := vrt.Start("C12")
 	c12Init()
 	c12Dir = t.TempDir()
+	// Refreshes replace their cache files with fsync; a tmpfs directory keeps
+	// that cheap.  The files are real files either way.
+	if d, derr := os.MkdirTemp("/dev/shm", "verif-c12-"); derr == nil {
+		c12Dir = d
+	}
 	http.DefaultTransport = c12Transport{}
 	parts := map[string]c12Part{}
 	for _, p := range c12Parts() {
@@ -475,5 +480,8 @@ func TestVerifC12(t *testing.T) {
 		})
 	}, func(c c12CustomCase) []vrt.Finding { return c12RunCustom(r, c) })
 	r.Finish()
+	if strings.HasPrefix(c12Dir, "/dev/shm/") {
+		_ = os.RemoveAll(c12Dir)
+	}
 	os.Exit(0)
 }
